@@ -131,7 +131,17 @@ class World:
             "env_unset": ["DSDL_INCLUDE_PATH"],
         }  # type: typing.Dict[str, typing.Any]
         if opts.get("pp_prog"):
-            inv["extprog"] = "rename" if opts["pp_prog"] == "rename" else "ok"
+            inv["extprog"] = opts["pp_prog"] if opts["pp_prog"] in ("rename", "crlf") else "ok"
+        if opts.get("extra_support"):
+            # the language's support package ships a plain header (copied, not rendered); mode as installed
+            d = os.path.join(self.sandbox, "pkg-extra")
+            p = os.path.join(d, "vendor_config.h")
+            if not os.path.exists(p):
+                os.makedirs(d, exist_ok=True)
+                with open(p, "w", encoding="utf-8", newline="") as f:
+                    f.write("/* vendor configuration (plain support header, copied) */\n#define VENDOR_CONFIG 1   \n\n\n\n/* end */\n")
+                os.chmod(p, 0o444 if opts["extra_support"] == "readonly" else 0o644)
+            inv["extra_support_files"] = {"lang": opts["lang"], "paths": [p]}
         inv.update(plan)
         return inv
 
